@@ -312,6 +312,21 @@ static void rebuffer_case(Pair &P, Tape &t, unsigned cfgb, unsigned sizeb, unsig
 		if (cls == 4) { pr.buflen = cut * 7; too_small = true; }
 		if (cls == 5 && nl == L_BIDI) { pr.buflen = min_mono + (cut * 13) % (min_bidi - min_mono); too_small = true; }
 	}
+	if (before == 0 && too_small) {
+		// a context that never had a usable buffer: constructed with the undersized one, then reset as documented
+		std::unique_ptr<BearClient> nc;
+		std::unique_ptr<BearServer> ns;
+		BearEndpoint *f;
+		bool ok0;
+		if (side) { ns.reset(new BearServer(pr)); f = ns.get(); ok0 = ns->reset(); } else { nc.reset(new BearClient(pr)); f = nc.get(); ok0 = nc->reset(); }
+		VF_CHECK(!ok0 && f->closed() && f->error() == BR_ERR_BAD_PARAM, "%s: new %s context with an undersized %s buffer (%zu/%zu/%zu bytes): reset returned %d, state %#x, error %d (want closed with BR_ERR_BAD_PARAM)", P.cfg.c_str(),
+			side ? "server" : "client", nl == L_MONO ? "half-duplex" : nl == L_BIDI ? "full-duplex" : "split", pr.buflen, pr.ilen, pr.olen, (int)ok0, f->state(), f->error());
+		bool ok1 = side ? ns->reset() : nc->reset();
+		VF_CHECK(!ok1 && f->closed() && f->error() == BR_ERR_BAD_PARAM, "%s: second reset of a context with an undersized buffer returned %d, error %d", P.cfg.c_str(), (int)ok1, f->error());
+		stats.cls("rebuffer:refused-fresh-context");
+		stats.eval(fmt("rebuf0/%u/%d/%u/%u/%u", cfgb & 3, side, nl, cls, cut));
+		return;
+	}
 	BearEndpoint *e = P.e[side];
 	e->rebuffer(pr);
 	bool ok = side ? P.s->reset() : P.c->reset();
